@@ -454,11 +454,12 @@ def _cfg_digest(cfg):
     return hashlib.sha1(json.dumps(cfg, sort_keys=True, default=str).encode()).hexdigest()[:12]
 
 
-def run_float(mod, cfg, env=None, seed=0, tries=1):
+def run_float(mod, cfg, env=None, seed=0, tries=1, purpose="consistency"):
     """run the case on ordinary float64 arrays against the real code, no shims"""
     last = None
     for k in range(tries):
         W = World("float", env=env, seed=seed + 7919 * k)
+        W.purpose = purpose
         try:
             with warnings.catch_warnings():
                 warnings.simplefilter("ignore")
@@ -563,7 +564,7 @@ def work_case(args):
             break
         env = f.get("model") or {}
         try:
-            WF = run_float(mod, cfg, env=env, seed=seed, tries=3 if not env else 1)
+            WF = run_float(mod, cfg, env=env, seed=seed, tries=3 if not env else 1, purpose="replay")
         except Exception as e:  # noqa
             out["errors"].append("replay crashed for %s: %r" % (f["label"], e))
             continue
@@ -775,6 +776,9 @@ def finish(mod, tier, seed, results, wall, shim_checks, pre_info, ncases):
         rc = 2
     for cfg, e in errors[:10]:
         print("HARNESS-ERROR %s cfg=%s" % (e, json.dumps(cfg, default=str)[:300]), file=sys.stderr)
+    if os.environ.get("VERIF_DEBUG"):
+        for r in sorted(results, key=lambda r: -r["wall"])[:6]:
+            print("SLOW %.1fs paths=%d %s" % (r["wall"], r["paths"], json.dumps(r["cfg"], default=str)[:200]), file=sys.stderr)
     exhaustive = not errors
     bounds = getattr(mod, "BOUNDS", {}).get(tier, {})
     ev = {
@@ -851,7 +855,7 @@ def write_replay(mod, cfg, v, key):
 
 def replay(mod, path):
     body = json.load(open(path))
-    WF = run_float(mod, body["cfg"], env=body.get("env"), seed=0)
+    WF = run_float(mod, body["cfg"], env=body.get("env"), seed=0, purpose="replay")
     hit = [f for f in (WF.failures if WF else []) if f["label"] == body["label"]]
     if hit:
         print("REPRODUCED %s: %s" % (body["label"], hit[0]["detail"]))
